@@ -162,10 +162,13 @@ def build_ann(s, env, spelling=None, preds=None):
     if k == "cls":
         return env[s[1]]
     if k == "obj":
-        return object
+        return typing.Any if sp.get("obj") == "any" else object
     if k == "union":
         how = sp.get("union", "typing")
         members = [build_ann(x, env, {"union": "ovld"} if how == "ovld" else None, preds) for x in s[1]]
+        if how == "optional":
+            rest = [m for m in members if m is not type(None)]
+            return typing.Optional[rest[0]] if len(rest) == 1 else typing.Optional[typing.Union[tuple(rest)]]
         if how == "tuple":
             return tuple(members)
         if how == "pipe":
@@ -207,6 +210,8 @@ def build_ann(s, env, spelling=None, preds=None):
         items = tuple(build_ann(x, env, None, preds) for x in s[1])
         return tuple[items] if items else tuple[()]
     if k == "listof":
+        if sp.get("list") == "typing":
+            return typing.List[build_ann(s[1], env, None, preds)]
         return list[build_ann(s[1], env, None, preds)]
     if k == "seqof":
         return collections.abc.Sequence[build_ann(s[1], env, None, preds)]
